@@ -113,6 +113,7 @@ def run(tier, seed):
         # respect to the regions could not be computed), and no margins are relied upon because
         # both plugins receive identical input
         gen.useArcs = False
+        gen.useRegEdit = False
         probe = gen.build().steps
         dirt = dirty_print(rng, getattr(hist, "regions_view", []))
         if rng.random() < 0.5:
